@@ -27,6 +27,9 @@ def run(ctx, crate):
     rule_len_saturating(ctx, crate)
     rule_fraction_clamp(ctx, crate)
     rule_getters(ctx, crate)
+    # "position() equals the value defined by the history of ... finish calls": per-variant effect of finishing on the position
+    from .c04 import rule_finish_arms
+    rule_finish_arms(ctx, crate)
     Lg.run_ledger(ctx, crate, "C07", "R-POS-LEDGER", ENTRIES, STOP, floor_edges=6)
 
 
@@ -168,13 +171,15 @@ def rule_fraction_clamp(ctx, crate, rule="R-FRACTION-CLAMP"):
     for i, j, s in b.assigns():
         if s["rv"]["k"] == "use" and s["rv"]["op"]["k"] == "const" and s["rv"]["op"].get("float"):
             vals.setdefault(s["rv"]["op"]["v"], []).append(i)
-    none_regs = [reg for vs, reg, sb, pl in K.variant_regions(b, crate, "std::option::Option") if vs == {"None"} and reg]
-    none_ok = bool(none_regs)
-    for reg in none_regs:
-        # the only float stored in the None region is 0.0, and no division
+    # everything that can execute when the length is None: only 0.0 is produced there and nothing is divided
+    is_len = lambda pl: b.slice({"k": "copy", "place": pl}, through_calls=False).has_field("len", "state::ProgressState")
+    lensw = [x for x in K.discr_switches(b) if K.head_of_type(x[2].get("ty", "")) == "std::option::Option" and is_len(x[2])]
+    none_ok = bool(lensw)
+    if lensw:
+        reg = K.variant_reach(b, crate, "std::option::Option", "None", is_len)
         stored = {v for v, bbs in vals.items() if set(bbs) & reg}
         divs = [1 for i, j, s in b.assigns() if i in reg and s["rv"]["k"] == "bin" and s["rv"]["op"] == "Div"]
-        none_ok = none_ok and stored == {"0.0"} and not divs
+        none_ok = stored == {"0.0"} and not divs
     ctx.check(none_ok, rule, "unknown-length-is-0", b.name, K.fn_loc(b), "unknown length yields the constant 0.0", "unknown length does not yield 0.0", cfg)
     zero_ok = False
     for sb, t in b.switches():
